@@ -20,7 +20,7 @@
    truths against the enumerated CPDAG in the correspondence run.  PDAG.to_dag is proved correct and complete for
    every extendable graph, and the DAG return type is reduced to PDAG exactness (C12_dag_member_if_cpdag_exact). *)
 From Coq Require Import List Bool Arith.
-From PV Require Import Base.Reach Base.Graph C08.Model C08.Spec C12.Model C12.Spec C12.FiniteDefs C12.Finite C12.ToDag C12.VPhase C12.Skeleton C12.DorTarsi C12.SpecBridge C12.Member C12.ModelFix C12.Refuted6 C12.Orient.
+From PV Require Import Base.Reach Base.Graph C08.Model C08.Spec C12.Model C12.Spec C12.FiniteDefs C12.Finite C12.ToDag C12.VPhase C12.Skeleton C12.DorTarsi C12.SpecBridge C12.Member C12.ModelFix C12.Refuted6 C12.Orient C12.Session.
 Import ListNotations.
 
 (* [U] skeleton phase, every DAG, every variant (orig / stable / parallel), every node order [vars] (a duplicate-free
@@ -224,3 +224,11 @@ Theorem C12_to_dag_invariants_nonvacuous :
   arcs_in ns A /\ irrefl A /\ exists D, to_dag true ns A = Some (D, false).
 Proof. exact to_dag_invariants_nonvacuous. Qed.
 Print Assumptions C12_to_dag_invariants_nonvacuous.
+
+(* the modelled estimate() keeps no state on the PC object: in a session of several calls (different oracles,
+   variants, max_cond_vars, orders) every answer is that of the call made alone; checked on pgmpy by the harness's
+   session stream *)
+Theorem C12_estimate_no_cross_call_state : forall before c after d,
+  nth (length before) (session (before ++ c :: after)) d = run_call c.
+Proof. exact session_no_cross_call_state. Qed.
+Print Assumptions C12_estimate_no_cross_call_state.
